@@ -26,6 +26,10 @@ ASSIGN_DEF = "def _a(ps; $v): reduce path(ps) as $p (.; setpath($p; $v)); "
 CTX = "2 as $x | "
 
 
+LAW = ('(try [%s] catch "p-fails") as $v | if $v == "p-fails" then $v else (try ([path(%s)] as $ps | if ($ps | length) != ($v | length) then "invalid-path-suppressed" '
+       'else [$ps[] as $q | getpath($q)] == $v end) catch (if (tostring | contains("nvalid path")) then "invalid-path" else "law-error: \\(.)" end)) end')
+
+
 def forms(p, r, f=None):
     """query forms for a path expression p"""
     f = f or r.choice([".", "7", "[.]", "{x: ., y: .}", ". + 1", "empty", "(., 1)", "tostring", "null", ".[0]?", "length?", "$x"])
@@ -35,6 +39,10 @@ def forms(p, r, f=None):
         ("path", "[path(%s)]" % p, None),
         ("vals", "[%s]" % p, None),
         ("law-getpath", "[path(%s) as $q | getpath($q)] == [%s]" % (p, p), None),
+        # the same law ASSERTED (the specification is a transcription of the code, agreement alone would accept a getpath that refuses what the
+        # access accepts): wherever p itself succeeds, getpath of every emitted path succeeds and returns p's outputs - or path(p) raises the
+        # invalid-path error the property demands for computed values (inside p's own `?` it shows as fewer paths than outputs).  checks/c02.py: assert_laws
+        ("law-asserted", LAW % (p, p), None),
         ("modify", "(%s) |= %s" % (p, f), MODIFY_DEF + "_m(%s; %s)" % (p, f)),
         ("assign", "(%s) = %s" % (p, x), ASSIGN_DEF + "_a(%s; %s)" % (p, x)),
         ("opassign", "(%s) %s %s" % (p, op, x), MODIFY_DEF + "%s as $z | _m(%s; . %s $z)" % (x, p, op[:-1])),
@@ -93,6 +101,9 @@ def run(tier, seed, replay):
         # null-valued keys / elements, nested: deleting or updating a member that EXISTS and holds null is not the same as a missing one
         nullish = [jqgen.V(x) for x in ({"a": None, "b": 1}, {"a": {"b": None}, "b": None}, [None, 1, None], {"a": [None], "b": {"a": None}}, [{"a": None}, None])]
 
+        lawcases = set()
+        stringy = [jqgen.V(x) for x in ("abc", "é日本", "", "a", ["ab", "c"], {"a": "xyz"}, "ab")]
+
         def add(src, inputs, ref=None):
             cases.append({"id": len(cases), "src": CTX + src, "inputs": inputs})
             if ref:
@@ -101,8 +112,10 @@ def run(tier, seed, replay):
 
         for g in d1 + [g for g in gen if g["d"] == 2]:
             fs = forms(g["p"], r)
-            for kind, src, ref in (fs if not quick else [fs[0], fs[1], fs[2]] + r.sample(fs[3:], 2)):
-                add(src, r.sample(uni, 1 if quick else 3) + [r.choice(nullish)], ref)
+            for kind, src, ref in (fs if not quick else [fs[0], fs[1], fs[2], fs[3]] + r.sample(fs[4:], 2)):
+                add(src, r.sample(uni, 1 if quick else 3) + [r.choice(nullish)] + (r.sample(stringy, 2) if kind == "law-asserted" else []), ref)
+                if kind == "law-asserted":
+                    lawcases.add(len(cases) - 1)
         for g in [g for g in gen if g["d"] == 0]:
             ins = r.sample(heapin, 2 if quick else 4)
             add("%s |= %s" % (g["p"], g["f"]), ins, MODIFY_DEF + "_m(%s; %s)" % (g["p"], g["f"]))
@@ -129,6 +142,23 @@ def run(tier, seed, replay):
         counters = evalfam.check_cases(rep, work, vh, prelude, cases, timeout=900 if quick else 3000)
         rep.cov["verdicts"] = counters
         probe_empty_location(rep, work, vh)
+        # the asserted law on the real code
+        nlaw = 0
+        for rec in evalfam.replay(work, vh, [cases[i] for i in sorted(lawcases)], tag="laws"):
+            for run_ in rec.get("runs", []):
+                if run_.get("long") or run_.get("panic"):
+                    continue
+                out = [jqgen.unV(x) for x in run_["out"]]
+                if run_.get("err") is None and out in ([True], ["p-fails"], ["invalid-path"], ["invalid-path-suppressed"]):
+                    nlaw += 1
+                    continue
+                fid = evalfam.match_known(rep, rec, run_, None, {})
+                if fid:
+                    rep.known_finding(fid, "%r on %s" % (rec["src"], evalfam.show(run_["in"])))
+                    continue
+                rep.violation("path/getpath law fails on the real code: where the access succeeds, getpath of the emitted paths does not return its outputs: %r on %s gives %s err=%s" % (
+                    rec["src"][len(CTX):], evalfam.show(run_["in"]), out, run_.get("err")), {"family": "eval", "case": {"src": rec["src"], "input": run_["in"]}, "actual": run_, "expected": [True]})
+        rep.cov["asserted_getpath_law_runs_holding"] = nlaw
         # --- second equality, on the real code alone: update form == explicit defining reduction
         recs = {rec["id"]: rec for rec in evalfam.replay(work, vh, [cases[i] for pr in pairs for i in pr], tag="pairs")}
         npairs = 0
